@@ -149,6 +149,9 @@ def protocol_names(rng, enum_class, ceiling=None):
     return [rng.choice(members) for _ in range(rng.choice([1, 1, 2, 3, 5, len(members)]))]
 
 
+MAX_EPOCH_SECONDS = 253402300799        # 9999-12-31T23:59:59Z (Lean: maxEpochSeconds)
+
+
 def sct(rng):
     import datetime as dt
     import dateutil.tz
@@ -159,8 +162,15 @@ def sct(rng):
         log_id = bytes(rng.choice(list(CertificateTransparencyLog)).value.log_id.value)
     else:
         log_id = rbytes(rng, 32)
-    millis = rng.choice([0, 1, 999, 1000, 1234567890123, (2 ** 32 - 1) * 1000 + 999, rng.randrange(2 ** 32) * 1000 + rng.randrange(1000)])
-    when = dt.datetime.fromtimestamp(millis // 1000, dateutil.tz.UTC) + dt.timedelta(milliseconds=millis % 1000)
+    # the field is 64 bits of milliseconds: also instants beyond 2^32 seconds, up to the last millisecond a datetime carries
+    millis = rng.choice([0, 1, 999, 1000, 1234567890123, (2 ** 32 - 1) * 1000 + 999, rng.randrange(2 ** 32) * 1000 + rng.randrange(1000),
+                         2 ** 32 * 1000, 2 ** 32 * 1000 + 7, 7258118400 * 1000 + 1, MAX_EPOCH_SECONDS * 1000 + 999,
+                         rng.randrange(2 ** 32, MAX_EPOCH_SECONDS + 1) * 1000 + rng.randrange(1000)])
+    when = dt.datetime(1970, 1, 1, tzinfo=dateutil.tz.UTC) + dt.timedelta(seconds=millis // 1000, milliseconds=millis % 1000)
+    if rng.random() < 0.2:
+        when = when.replace(tzinfo=None)        # naive: the library takes it as UTC at construction
+    elif rng.random() < 0.2 and millis // 1000 < MAX_EPOCH_SECONDS - 86400:
+        when = when.astimezone(dt.timezone(dt.timedelta(hours=5, minutes=30)))
     return SignedCertificateTimestamp(
         version=CtVersion.V1, log=log_id, timestamp=when, extensions=list(rbytes(rng, rng.choice([0, 0, 0, 1, 5]))),
         signature_algorithm=rng.choice(list(TlsSignatureAndHashAlgorithm)),
@@ -444,7 +454,11 @@ def _ext(t, body):
 
 def raw_sct(rng, version=0, ts=None, alg=None, tail=b''):
     from cryptodatahub.tls.algorithm import TlsSignatureAndHashAlgorithm
-    ts = _u(8, rng.randrange(2 ** 44)) if ts is None else ts
+    if ts is None:
+        # milliseconds: mostly inside the range of a datetime (also beyond 2^32 seconds), its last value, and values after it
+        ts = _u(8, rng.choice([rng.randrange(2 ** 44), rng.randrange(2 ** 44), 2 ** 32 * 1000 + 7, 7258118400 * 1000,
+                               MAX_EPOCH_SECONDS * 1000 + 999, (MAX_EPOCH_SECONDS + 1) * 1000, rng.randrange(2 ** 44, 2 ** 64 - 1),
+                               2 ** 64 - 2]))
     alg = _u(2, rng.choice(list(TlsSignatureAndHashAlgorithm)).value.code) if alg is None else alg
     ext = rbytes(rng, rng.choice([0, 0, 3]))
     sig = rbytes(rng, rng.choice([0, 8, 70]))
